@@ -1,0 +1,47 @@
+//go:build verif
+// +build verif
+
+package partition
+
+// Accessor for the verification harness of property C02 (time-range queries): a chkSelector that is kept
+// across calls, the way a cached RANGE cursor keeps the one of its JIterator. Nothing here changes
+// behaviour; the file is compiled only with `-tags verif`.
+
+import (
+	"context"
+	"io"
+
+	"github.com/logrange/logrange/pkg/model"
+	"github.com/logrange/logrange/pkg/tmindex"
+	"github.com/logrange/range/pkg/records/journal"
+)
+
+// VC02Selector is one chkSelector that lives as long as the caller keeps it
+type VC02Selector struct {
+	cs   *chkSelector
+	jrnl journal.Journal
+}
+
+// VC02NewSelector creates a selector for the range over the journal; nothing is computed yet
+func VC02NewSelector(tmRange model.TimeRange, jrnl journal.Journal, tmidx tmindex.TsIndexer, rb TmIndexRebuilder) *VC02Selector {
+	return &VC02Selector{cs: newChkSelector(tmRange, jrnl, tmidx, rb), jrnl: jrnl}
+}
+
+// Windows asks the kept selector for the status of every chunk of the journal, in journal order
+// (getChunkStatus: the cached status, recomputed for all chunks when the number of chunks changed and for
+// one chunk when its record count changed), and returns what it answers
+func (s *VC02Selector) Windows(ctx context.Context) ([]VC02Window, error) {
+	cks, err := s.jrnl.Chunks().Chunks(ctx)
+	if err != nil {
+		return nil, err
+	}
+	res := make([]VC02Window, 0, len(cks))
+	for _, ck := range cks {
+		st := s.cs.getChunkStatus(ctx, ck, cks)
+		if st == nil {
+			return nil, io.ErrUnexpectedEOF
+		}
+		res = append(res, VC02Window{ck.Id(), st.minPos, st.maxPos, st.count})
+	}
+	return res, nil
+}
